@@ -167,6 +167,9 @@ def run(ctx):
     for i in range(8 if ctx.quick() else 60):
         lines, ids = pdbgen.multichain(rnd, nchains=rnd.randint(1, 2), separation=rnd.choice([15.0, 40.0]), chains="ABCDEFG")
         lines = [l for l in lines if not l.startswith("TER")] if i % 3 == 0 else lines
+        if i % 4 == 1:
+            # incomplete residues: groups whose centre cannot be built from their own atoms must still move with the structure
+            lines = pdbgen.truncate_sidechains(rnd, lines, rnd.randint(1, 2), types=rnd.choice([None, ("ASP", "GLU")]))
         inputs.append(("gen%d" % i, pdbgen.text(lines), False))
     hbad, fbad, kbad = [], [], []
     hbad_known = 0
@@ -177,14 +180,48 @@ def run(ctx):
         lines = pdbgen.lines_of(text)
         bh, bf = heavy_obs(base), full_obs(base)
         nmot = 2 if ctx.quick() else 6
-        for k in range(nmot):
-            ml, (m, t) = random_motion(rnd, lines, straddle=(k == 0))
+        for k in range(nmot + 3):
+            if k < nmot:
+                ml, (m, t) = random_motion(rnd, lines, straddle=(k == 0))
+            else:
+                # a pure translation that puts one of the hydrogens the program builds exactly on a coordinate plane (x, y or z = 0.000)
+                built = [a for a in base.mol.conformations[base.mol.conformation_names[0]].atoms if a.element == 'H']
+                if not built:
+                    continue
+                h, ax = rnd.choice(built), rnd.randrange(3)
+                t = [0.0, 0.0, 0.0]
+                t[ax] = -round((h.x, h.y, h.z)[ax], 3)
+                m = pdbgen.rotations24()[0]
+                ml = pdbgen.translate(lines, *t)
+                ctx.count("translations putting a built hydrogen on a coordinate plane")
             o = observe.run(pdbgen.text(ml), [], want_text=False)
             ctx.case(key=(name, k, tuple(map(tuple, m)), tuple(t)), nontrivial=len(bf) > 0)
             ctx.count("motions")
             if o.error:
                 hbad.append((name, ["error %r" % (o.error,)], pdbgen.text(ml), text))
                 continue
+            if k >= nmot:
+                # under a pure grid translation every hydrogen the program builds moves with the structure (up to the rounding)
+                # (compared as sets per residue: which of two equivalent hydrogens is built first, and so their names, follows
+                # the order of the bond lists)
+                def hp(ob):
+                    out = {}
+                    for a in ob.mol.conformations[ob.mol.conformation_names[0]].atoms:
+                        if a.element == 'H':
+                            out.setdefault(observe.atom_key(a)[:4], []).append((a.x, a.y, a.z))
+                    return out
+                ha, hb = hp(base), hp(o)
+                d = []
+                if {k: len(v) for k, v in ha.items()} != {k: len(v) for k, v in hb.items()}:
+                    d.append("different sets of built hydrogens after a translation by %r" % (t,))
+                else:
+                    for key, pas in ha.items():
+                        for pa in pas:
+                            if not any(all(abs(pb[i] - t[i] - pa[i]) <= 0.0021 for i in range(3)) for pb in hb[key]):
+                                d.append("hydrogen of %r at %r has no counterpart after a translation by %r: %r" % (key, pa, t, hb[key][:4]))
+                if d:
+                    fbad.append((name, d[:3], pdbgen.text(ml), text))
+                    continue
             d = cmp_heavy(bh, heavy_obs(o))
             if d:
                 if is_d10(d) and "D10:cterm-carbon-choice-depends-on-bond-order" in ctx.known:
